@@ -148,6 +148,20 @@ class Codec(object):
             return [self.enc(t['seq'], x) if x is not None else None for x in v]
         if 'ref' in t:
             cname = v.get('__class__', t['ref']) if isinstance(v, dict) else t['ref']
+            # YAML can say "the same object again" (anchor and alias; safe_dump writes them for an object that occurs twice, and the
+            # loader hands the protocol the same mapping twice): an object that occurs twice in the value is encoded once
+            memo = getattr(self, '_yaml_memo', None)
+            if c.fmt == 'yaml' and memo is not None and isinstance(v, dict) and (id(v), cname) in memo:
+                return memo[(id(v), cname)]
+            out = self._enc_ref(t, v, cname)
+            if c.fmt == 'yaml' and memo is not None and isinstance(v, dict):
+                memo[(id(v), cname)] = out
+            return out
+        raise KeyError(t)
+
+    def _enc_ref(self, t, v, cname):
+        c = self.conf
+        if True:
             fields = gen.all_fields(self.ir, cname)
             if c.complex_as == 'list':
                 body = [self.enc_member(ft, v.get(fn)) for fn, ft in fields]
@@ -163,7 +177,6 @@ class Codec(object):
             if not c.ignore_wrappers:
                 return {c.key(cname): body}
             return body
-        raise KeyError(t)
 
     def enc_member(self, t, x):
         if x is None or x is NIL:
@@ -172,6 +185,7 @@ class Codec(object):
 
     def request(self, md, args):
         c = self.conf
+        self._yaml_memo = {}
         name = md.get('in_message_name') or md['name']
         if md['style'] == 'bare':
             (an, at), = md['args']
